@@ -10,7 +10,11 @@ import (
 // instance; every session is compared with its own model instance (one output line per session).
 
 func genC18Steps(r *Rng, stack []mwSpec, n int) []mwStep {
+	long := "pppppppppppppppppppppppppppppppppppppppppppppppppppppppppppppppp"
 	subs := []string{"a", "b", "c", "d"}
+	if r.P(20) {
+		subs = []string{"a", long + "-x", long + "-y", "é"}
+	}
 	ids := []string{eventID(1), eventID(2), eventID(3), eventID(4), eventID(5)}
 	mk := func(id string) *mocrelay.Event {
 		return &mocrelay.Event{ID: id, Pubkey: authors[0], CreatedAt: 5, Kind: 1, Tags: []mocrelay.Tag{}, Content: "c", Sig: sig128(1)}
